@@ -7,16 +7,19 @@ from harness import coqfmt as cf
 from harness.props import c03 as base
 
 PROP = "C05"
-COQ = dict(imports=["Model.Heads", "Model.Stamp", "Spec.C05"], in_ty="c05_in", out_ty="c05_out",
-           corr="corr_C05", decide="check_C05", model="model_C05")
+COQ = dict(imports=["Model.Heads", "Model.Stamp", "Spec.C05"], in_ty="c05_any", out_ty="c05_anyout",
+           corr="corr_C05_any", decide="check_C05_any", model="model_C05_any")
 THEOREMS = ["C05_decider_sound", "C05_single_target", "C05_base", "C05_purge", "C05_multi_refuted", "C05_multi_partial",
-            "C05_multi_partial_class"]
+            "C05_multi_partial_class", "C05_any_decider_sound", "C05_e2e_single", "C05_e2e_base", "C05_e2e_purge_any_table",
+            "C05_label_head_refuted"]
 TRUSTED = [
     "SQLite + SQLAlchemy execute the three bookkeeping statements as the list model says; matched-row counts are observed",
     "the revision graph is given to the model already loaded; `heads` is given as the observed order of RevisionMap._real_heads "
     "(the model checks that it is a permutation of the real heads); rows are given in the order SELECT returns them",
-    "targets are full revision ids, `base` or `heads`; partial ids, branch labels (label@head) and relative targets are "
-    "resolved by code that belongs to C16 and are not part of this model",
+    "targets are full revision ids, `base`, `heads`, and (end-to-end cases) label@head whose resolution "
+    "(_resolve_revision_number / get_revisions: C16's code) is observed and handed to the model; partial ids and relative targets are not modelled",
+    "end-to-end cases: env.py (generic template), engine/connection handling and transaction framing (C04) are observed through the "
+    "committed rows only; the model says which rows must be committed, not how",
 ]
 ASSUME = [
     "wf_refs G, no directed cycle, r_ndeps as computed by _normalize_depends_on",
@@ -28,7 +31,11 @@ RULE = ("quick: EVERY history of <=4 revisions (topological load order, each ear
         "of each later one) x EVERY antichain state H x targets {each id, base, heads, every unordered pair of ids (pairs on 4 revisions: every second history in quick, "
         "all in thorough)}, without --purge; with --purge for every history, every target and the largest state; seeded random histories of 5-10 revisions "
         "x random antichain states x random targets (single, pairs, triples, heads, base) x purge. thorough adds ordered pairs, "
-        "triples on <=4 revisions, the reversed load order and 10x the random cases. Compared exactly: the StampSteps returned by "
+        "triples on <=4 revisions, the reversed load order and 10x the random cases. END TO END: the real command.stamp(config, target, "
+        "purge=..) with a generic-template env.py on a SQLite FILE, rows read back by a FRESH connection: every history of <=3 revisions "
+        "(+12 sampled 4-revision ones; thorough 200) x {every antichain state reached by real `upgrade` commands, a table holding an id "
+        "the scripts do not know (with and without a known one)} x targets {base, each id, lab@head for every placement of the label "
+        "that resolves} x purge; the committed rows / exception class are compared with Model.Stamp.stamp_cmd. Compared exactly: the StampSteps returned by "
         "_stamp_revs (from_, to_, is_upgrade, branch_move), after every step the rows (multiset) and every statement with its "
         "matched-row count, the exception class. non-trivial = at least one step ran")
 EXHAUSTIVE = {"quick": True, "thorough": True}
@@ -83,6 +90,40 @@ def random_cases(rnd, count):
         yield {"g": g, "rows": H, "target": t, "purge": rnd.random() < 0.15, "kind": "random"}
 
 
+def e2e_cases(n, rnd=None, sample=None):
+    """command.stamp end to end on a database FILE: history of n revisions (revision `lab` carries the branch label
+    `lab`), start state = an antichain reached by real `upgrade` commands, or a table holding an id the scripts do
+    not know (the reason --purge exists); targets base / each id / lab@head; with and without --purge"""
+    graphs = list(base.topo_graphs(n))
+    if sample is not None:
+        graphs = rnd.sample(graphs, sample)
+    for down, deps in graphs:
+        g = base._g(n, down, deps)
+        kids = {i: [j for j in range(n) if i in down.get(j, ())] for i in range(n)}
+        for lab in range(n):
+            # lab@head resolves iff exactly one head (by down_revision) descends from the labelled revision
+            seen, todo, heads = set(), [lab], set()
+            while todo:
+                u = todo.pop()
+                if u in seen:
+                    continue
+                seen.add(u)
+                if not kids[u]:
+                    heads.add(u)
+                todo.extend(kids[u])
+            tg = [["base"]] + [["r%d" % i] for i in range(n)] + ([["lab@head"]] if len(heads) == 1 else [])
+            if lab > 0:
+                tg = [t for t in tg if t == ["lab@head"]]      # the unlabelled targets are the same for every lab
+            if not tg:
+                continue
+            states = [{"up": S} for S in base.antichains(n, down, deps)] + [{"raw": [99]}, {"raw": [99, 0]}]
+            for st in states:
+                for t in tg:
+                    for purge in (False, True):
+                        yield {"e2e": True, "g": g, "label_on": lab, "state": st, "target": t, "purge": purge,
+                               "kind": "e2e-n%d" % n}
+
+
 def generate(tier, seed):
     rnd = random.Random(seed * 7919 + 5)
     # the design-time witness of the multi-target deviation first (c base; b<-c; a<-c; e<-a; d base depends_on c)
@@ -93,6 +134,13 @@ def generate(tier, seed):
         yield from exhaustive(n)
     yield from exhaustive(4, half_multi=(tier == "quick"))
     yield from random_cases(rnd, 1500 if tier == "quick" else 15000)
+    # witness of the label@head deviation: c(label) base; a<-c; e<-a; d base depends_on c; rows {a,d}; stamp lab@head
+    yield {"e2e": True, "g": [{"id": 0, "down": [], "deps": []}, {"id": 1, "down": [0], "deps": []}, {"id": 2, "down": [1], "deps": []},
+                               {"id": 3, "down": [], "deps": [0]}], "label_on": 0, "state": {"up": [1, 3]}, "target": ["lab@head"],
+           "purge": False, "kind": "e2e-witness"}
+    for n in (1, 2, 3):
+        yield from e2e_cases(n)
+    yield from e2e_cases(4, rnd, 12 if tier == "quick" else 200)
     if tier == "thorough":
         for n in (2, 3, 4):
             yield from exhaustive(n, ordered=True, triples=True)
@@ -106,7 +154,118 @@ def search(tier, seed):
 
 # ----------------------------------------------------------------------------- implementation side
 
+ENV_PY = """
+from sqlalchemy import engine_from_config, pool
+from alembic import context
+config = context.config
+connectable = engine_from_config(config.get_section(config.config_ini_section, {}), prefix="sqlalchemy.", poolclass=pool.NullPool)
+with connectable.connect() as connection:
+    context.configure(connection=connection, target_metadata=None)
+    with context.begin_transaction():
+        context.run_migrations()
+"""
+
+
+def run_e2e(h):
+    """the real command.stamp (env.py as in the generic template) on a SQLite file; rows read back by a fresh connection"""
+    import io
+    import logging
+    import os
+    import shutil
+    import tempfile
+    import warnings
+    warnings.simplefilter("ignore")
+    logging.disable(logging.CRITICAL)
+    import sqlalchemy as sa
+    from alembic import command
+    from alembic.config import Config
+    from alembic.script import ScriptDirectory
+
+    tmp = tempfile.mkdtemp(prefix="avc05")
+    try:
+        sd = os.path.join(tmp, "scripts")
+        os.makedirs(os.path.join(sd, "versions"))
+        open(os.path.join(sd, "env.py"), "w").write(ENV_PY)
+        open(os.path.join(sd, "script.py.mako"), "w").write("")
+        tup = lambda xs: repr(tuple(base._name(x) for x in xs)) if xs else "None"
+        for r in h["g"]:
+            open(os.path.join(sd, "versions", "%s.py" % base._name(r["id"])), "w").write(
+                "revision = %r\ndown_revision = %s\ndepends_on = %s\nbranch_labels = %s\n"
+                "def upgrade():\n    pass\ndef downgrade():\n    pass\n" % (
+                    base._name(r["id"]), tup(r["down"]), tup(r["deps"]), "'lab'" if r["id"] == h["label_on"] else "None"))
+        url = "sqlite:///" + os.path.join(tmp, "db.sqlite")
+        cfg = Config(stdout=io.StringIO())
+        cfg.set_main_option("script_location", sd)
+        cfg.set_main_option("sqlalchemy.url", url)
+
+        def fresh_rows():
+            eng = sa.create_engine(url)
+            try:
+                with eng.connect() as c:
+                    if not sa.inspect(c).has_table("alembic_version"):
+                        return []
+                    return [base._back(r[0]) for r in c.execute(sa.text("SELECT version_num FROM alembic_version"))]
+            finally:
+                eng.dispose()
+
+        # the start state
+        st = h["state"]
+        if "up" in st:
+            for x in st["up"]:
+                command.upgrade(cfg, base._name(x))
+            if sorted(fresh_rows()) != sorted(st["up"]):
+                raise RuntimeError("could not reach state %r: rows %r" % (st["up"], fresh_rows()))
+        else:
+            eng = sa.create_engine(url)
+            with eng.begin() as c:
+                c.execute(sa.text("CREATE TABLE alembic_version (version_num VARCHAR(32) NOT NULL, "
+                                  "CONSTRAINT alembic_version_pkc PRIMARY KEY (version_num))"))
+                for x in st["raw"]:
+                    c.execute(sa.text("INSERT INTO alembic_version VALUES ('%s')" % base._name(x)))
+            eng.dispose()
+        before = fresh_rows()
+
+        # what the model is given: the history as loaded, and the resolution of the target (C16's business)
+        script = ScriptDirectory.from_config(cfg)
+        m = script.revision_map
+        order = [k for k, v in m._revision_map.items() if v is not None and k == v.revision]
+        enc = [{"id": base._back(k), "down": [base._back(x) for x in m._revision_map[k]._versioned_down_revisions],
+                "deps": sorted(base._back(x) for x in m._revision_map[k]._resolved_dependencies),
+                "ndeps": [base._back(x) for x in m._revision_map[k]._normalized_resolved_dependencies]} for k in order]
+        t = h["target"][0]
+        if t == "base":
+            groups, dests = [[]], None
+        else:
+            ids_, lab = m._resolve_revision_number(t)
+            against = ([m._revision_for_ident(lab).revision] if lab else []) + list(ids_)
+            groups = [[base._back(x) for x in against]]
+            dests = [base._back(r.revision) for r in m.get_revisions(t)]
+
+        try:
+            command.stamp(cfg, t, purge=bool(h["purge"]))
+            after = fresh_rows()
+            cout, out = "OE2E (Ok %s)" % cf.nlist(after), {"rows_before": before, "rows_after": after}
+        except Exception as e:
+            cls = base.err_class(e)
+            cout, out = "OE2E (Err %s)" % cls, {"rows_before": before, "err": cls, "rows_after": fresh_rows()}
+    finally:
+        shutil.rmtree(tmp, ignore_errors=True)
+    cin = "CE2E (%s, %s, %s, %s, %s)" % (cf.graph(enc), cf.boolean(h["purge"]), cf.lst(cf.nlist(a) for a in groups),
+                                       "None" if dests is None else "(Some %s)" % cf.nlist(dests), cf.nlist(before))
+    par = {r["id"]: set(r["down"]) | set(r["deps"]) for r in enc}
+    cl = {i: base._closure(par, [i]) for i in par}
+    rel = lambda a, b: a in cl and b in cl and (a in cl[b] or b in cl[a])
+    start = [] if h["purge"] else before
+    label_only = [x for x in start if dests and len(groups[0]) > 1 and rel(x, groups[0][0]) and not rel(x, dests[0])]
+    out.update({"groups": groups, "dests": dests, "label_only_rows": label_only})
+    shape = "%s-%s-%s%s%s" % (h["kind"], "up" if "up" in st else "unknown-row", "base" if t == "base" else "label" if "@" in t else "id",
+                              "-purge" if h["purge"] else "", "-" + out["err"] if "err" in out else "")
+    return dict(cin=cin, cout=cout, out=out, nontrivial="err" not in out and sorted(before) != sorted(out["rows_after"]), shape=shape)
+
+
 def run_case(h):
+    if h.get("e2e"):
+        return run_e2e(h)
     import warnings
     import logging
     warnings.simplefilter("ignore")
@@ -191,11 +350,11 @@ def run_case(h):
     else:
         R = [base._back(x) for x in t]
         tgt = "TIds %s" % cf.nlist(R)
-    cin = "(%s, %s, %s, %s)" % (cf.graph(enc), cf.boolean(h["purge"]), tgt, cf.nlist(rows_seen))
+    cin = "CStamp (%s, %s, %s, %s)" % (cf.graph(enc), cf.boolean(h["purge"]), tgt, cf.nlist(rows_seen))
     if planerr:
-        cout = "Err %s" % planerr[0]
+        cout = "OStamp (Err %s)" % planerr[0]
     else:
-        cout = "Ok (%s, %s)" % (cf.lst(st(x) for x in plan), cf.lst(ob(x) for x in obs))
+        cout = "OStamp (Ok (%s, %s))" % (cf.lst(st(x) for x in plan), cf.lst(ob(x) for x in obs))
     # reference bookkeeping for classification only
     par = {r["id"]: set(r["down"]) | set(r["deps"]) for r in enc}
     cl = {i: base._closure(par, [i]) for i in par}
@@ -213,6 +372,9 @@ def classify(human, out):
     """the recorded multi-target deviation: more than one target, and more than one of them shares lineage with a row"""
     if out and len(out.get("targets", [])) > 1 and len(out.get("related_targets", [])) > 1:
         return "C05-multi-target-stamp"
+    # label@head: a row that shares lineage with the labelled revision but not with the destination
+    if out and out.get("label_only_rows"):
+        return "C05-label-head-stamp"
     return None
 
 
